@@ -88,3 +88,25 @@ Definition via_alias (disable_array : bool) (k : tkind) : bool :=
   match k with KStruct | KEnum => false | KArray => negb disable_array | _ => true end.
 Definition declared_as_alias (old_aliasing disable_array : bool) (k : tkind) : bool :=
   negb old_aliasing && via_alias disable_array k.
+
+(** * The integers a sized format stands for, and the integers the Go type of the table holds (64-bit platforms). *)
+From Coq Require Import ZArith.
+Definition int_range (name : string) : option (Z * Z) :=
+  if String.eqb name "int8" then Some (-128, 127)%Z else if String.eqb name "int16" then Some (-32768, 32767)%Z
+  else if String.eqb name "int32" then Some (-2147483648, 2147483647)%Z
+  else if String.eqb name "int64" || String.eqb name "int" then Some (-9223372036854775808, 9223372036854775807)%Z
+  else if String.eqb name "uint8" then Some (0, 255)%Z else if String.eqb name "uint16" then Some (0, 65535)%Z
+  else if String.eqb name "uint32" then Some (0, 4294967295)%Z
+  else if String.eqb name "uint64" || String.eqb name "uint" then Some (0, 18446744073709551615)%Z
+  else None.
+Definition in_range (r : Z * Z) (v : Z) : bool := (Z.leb (fst r) v && Z.leb v (snd r))%bool.
+Definition sized_formats : list string := ["int8"; "int16"; "int32"; "int64"; "int"; "uint8"; "uint16"; "uint32"; "uint64"; "uint"].
+(** a decoder into the Go type of the table accepts [v] *)
+Definition decodes (table : otype -> string -> option string) (format : string) (v : Z) : bool :=
+  match table TInteger format with
+  | Some g => match int_range g with Some r => in_range r v | None => false end
+  | None => false
+  end.
+(** the table with the unsigned 64-bit row forgotten (falls to the default int) *)
+Definition go_type_without_uint64 (t : otype) (format : string) : option string :=
+  if String.eqb format "uint64" then go_type t "" else go_type t format.
